@@ -209,6 +209,8 @@ def _write_prop(pg, p):
         if p.get("uncertainty") is not None:
             ds.attrs["uncertainty"] = _tokf(p["uncertainty"])
     _entity(ds, p["name"], p["id"])
+    for k, v in (p.get("attrs") or {}).items():
+        ds.attrs[k] = v
     for a in ("definition", "unit"):
         if p.get(a) is not None:
             if p.get("attr_bytes") and p[a]:
@@ -900,6 +902,7 @@ def gen_texts(rng, n, mode=None):
     return [rng.choice(TEXTS + ["", "", "ref%d" % i]) for i in range(n)]
 
 
+NEW_TEXT_ATTRS = ("value_origin", "dependency", "dependency_value")
 PROP_DTYPES = ["int64", "int64", "float64", "float64", "str", "str", "bool", "int32", "uint8", "float32"]
 
 
@@ -917,6 +920,8 @@ def _gen_prop(rng, name, kind, dtype=None, n=None, umode=None, tmodes=None):
     else:
         p["values"] = [_gen_value(rng, dtype) for _ in range(n)]
         p["uncertainty"] = rng.choice([None, None, _fs(_dyadic(rng)), "nan", _fr(_double(rng))])
+        if rng.random() < 0.3:      # text attributes only the new layout has; the upgrade must leave them alone
+            p["attrs"] = {k: _free_text(rng, ["origin", "dep"]) for k in NEW_TEXT_ATTRS if rng.random() < 0.6}
     return p
 
 
@@ -1428,7 +1433,8 @@ def expected_content(spec):
                 extras = None
             vals = [["f", _ctok(v[1])] if v[0] == "f" else v for v in vals]
             props[p["name"]] = {"values": vals, "dtype": p["dtype"], "unit": p.get("unit") or None,
-                                "definition": p.get("definition") or None, "extras": extras}
+                                "definition": p.get("definition") or None, "extras": extras,
+                                "attrs": {k: v for k, v in (p.get("attrs") or {}).items() if v}}
         secs[here] = {"id": s["id"], "type": s["type"], "props": props, "children": [c["name"] for c in s["sections"]],
                       "definition": s.get("definition") or None}
         for c in s["sections"]:
@@ -1478,7 +1484,8 @@ def api_walk(path, mode, extras=True):
                                  "definition": q.definition or None,
                                  "uncertainty": ((None if q.uncertainty is None else _fr(q.uncertainty))
                                                  if extras else None),
-                                 "dtype": _dtag(np.dtype(q.data_type)) if not isinstance(q.data_type, list) else "?"}
+                                 "dtype": _dtag(np.dtype(q.data_type)) if not isinstance(q.data_type, list) else "?",
+                                 "attrs": {k: getattr(q, k) for k in NEW_TEXT_ATTRS if getattr(q, k)}}
             secs[here] = {"id": s.id, "type": s.type, "props": props, "children": [c.name for c in s.sections],
                           "definition": s.definition or None}
             for c in s.sections:
@@ -1531,7 +1538,7 @@ def content_diff(exp, got, after):
             gp = gs["props"].get(pn)
             if gp is None:
                 return "section %s: property %r is gone" % (sp, pn)
-            for k in ("values", "unit", "definition"):
+            for k in ("values", "unit", "definition", "attrs"):
                 if gp[k] != ep[k]:
                     return "section %s property %r: %s reads %s, expected %s" % (sp, pn, k, json.dumps(gp[k])[:200],
                                                                                 json.dumps(ep[k])[:200])
